@@ -183,4 +183,139 @@ theorem versatiles_interrupted_write_safe (K : Inflate) (enc : Bytes → Bytes) 
     obtain ⟨r, hr, _, _, hall⟩ := VtProps.C01.versatiles_roundtrip K enc s tiles gs hK hnil hmeta file defs hw hsize hidx32
     exact ⟨r, hr, hall⟩
 
+/-! ## pmtiles -/
+
+/-- a successful `open_reader` has decoded a 127-byte header whose tile compression is known -/
+theorem pm_openReader_ok {K : Inflate} {file : Bytes} {r : PMTiles.Reader}
+    (h : PMTiles.openReader K file = .ok r) :
+    ∃ hb hd c, readRange file ⟨0, 127⟩ = .ok hb ∧ PMTiles.decHeader hb = .ok hd ∧ PMTiles.compOfCode hd.tcomp = .ok c := by
+  unfold PMTiles.openReader at h
+  cases h1 : readRange file ⟨0, 127⟩ with
+  | err => simp [h1] at h
+  | panic => simp [h1] at h
+  | ok hb =>
+    simp only [h1, ok_bind] at h
+    cases h2 : PMTiles.decHeader hb with
+    | err => simp [h2] at h
+    | panic => simp [h2] at h
+    | ok hd =>
+      simp only [h2, ok_bind] at h
+      cases h3 : PMTiles.compOfCode hd.icomp with
+      | err => simp [h3] at h
+      | panic => simp [h3] at h
+      | ok ic =>
+        simp only [h3, ok_bind] at h
+        cases h4 : readRange file hd.metaR with
+        | err => simp [h4] at h
+        | panic => simp [h4] at h
+        | ok m =>
+          simp only [h4, ok_bind] at h
+          cases h5 : K.run ic m with
+          | err => simp [h5] at h
+          | panic => simp [h5] at h
+          | ok x5 =>
+            simp only [h5, ok_bind] at h
+            cases h6 : readRange file hd.root with
+            | err => simp [h6] at h
+            | panic => simp [h6] at h
+            | ok rc =>
+              simp only [h6, ok_bind] at h
+              cases h7 : K.run ic rc with
+              | err => simp [h7] at h
+              | panic => simp [h7] at h
+              | ok root =>
+                simp only [h7, ok_bind] at h
+                cases h8 : readRange file hd.leaf with
+                | err => simp [h8] at h
+                | panic => simp [h8] at h
+                | ok leaves =>
+                  simp only [h8, ok_bind] at h
+                  cases h9 : PMTiles.coverDir K ic leaves 3 PMTiles.Cover.empty root with
+                  | err => simp [h9] at h
+                  | panic => simp [h9] at h
+                  | ok cov =>
+                    simp only [h9, ok_bind] at h
+                    cases h10 : PMTiles.compOfCode hd.tcomp with
+                    | err => simp [h10] at h
+                    | panic => simp [h10] at h
+                    | ok c => exact ⟨hb, hd, c, rfl, h2, h10⟩
+
+/-- the tile compression of a decoded header is byte 98 -/
+theorem pm_decHeader_tcomp {bs : Bytes} {hd : PMTiles.Header} (h : PMTiles.decHeader bs = .ok hd) :
+    bs.length = 127 ∧ hd.tcomp = leDec ((bs.drop 98).take 1) := by
+  have hbl : bs.length = 127 := by
+    unfold PMTiles.decHeader at h
+    by_cases hl : bs.length = 127
+    · exact hl
+    · simp [ensure, hl] at h
+  refine ⟨hbl, ?_⟩
+  simp [PMTiles.decHeader, ensure, Fmt.takeN, readLE, readI32LE, hbl, List.length_drop, List.drop_eq_nil_iff] at h
+  split at h
+  · split at h
+    · split at h
+      · split at h
+        · split at h
+          · cases h; rfl
+          · simp at h
+        · simp at h
+      · simp at h
+    · simp at h
+  · simp at h
+
+/-- the container model's reader does not open a file whose byte 98 (tile compression) is zero or absent -/
+theorem pm_not_open_of_byte98 {K : Inflate} {s : Bytes} (h : s[98]?.getD 0 = 0) :
+    ∀ r, PMTiles.openReader K s ≠ .ok r := by
+  intro r hr
+  obtain ⟨hb, hd, c, h1, h2, h3⟩ := pm_openReader_ok hr
+  obtain ⟨hbl, htc⟩ := pm_decHeader_tcomp h2
+  have hhb : hb = s.take 127 := by
+    unfold readRange at h1
+    split at h1
+    · cases h1
+    · split at h1
+      · cases h1
+      · simpa using (Outcome.ok.inj h1).symm
+  have hlen : 127 ≤ s.length := by
+    rw [hhb] at hbl; simp at hbl; omega
+  have hb98 : (hb.drop 98).take 1 = [0] := by
+    rw [hhb]
+    have h98 : s[98]? = some 0 := by
+      have hlt : 98 < s.length := by omega
+      rw [List.getElem?_eq_getElem hlt] at h ⊢
+      simpa using h
+    rw [List.drop_take]
+    have : (s.drop 98) = s[98]'(by omega) :: s.drop 99 := by
+      rw [List.drop_eq_getElem_cons (by omega)]
+    rw [this]
+    have hv : s[98]'(by omega) = 0 := by
+      rw [List.getElem?_eq_getElem (by omega)] at h98; exact Option.some.inj h98
+    simp [hv]
+  rw [htc, hb98] at h3
+  simp [leDec, PMTiles.compOfCode] at h3
+
+/-- **C12 (pmtiles) against the container model's reader – partial**: every crash state of the
+    writer's operation sequence is not opened by `PMTiles.openReader`, or agrees with the completed
+    file on header bytes 0..99 and on everything behind the header.  (Missing for the full statement:
+    transfer of `ValidPMTiles` along that agreement – `WFDir` depends on the file only through its
+    length and `Addr` not at all, tile payloads lie behind offset 16384 – and the identification of
+    the operation sequence's completed file with `PMTiles.write`.) -/
+theorem pmtiles_interrupted_write_partial (K : Inflate) (metaC : Bytes) (tiles : List Bytes)
+    (rootC leavesC hdr : Bytes) (hlen : hdr.length = 127) (i k : Nat) :
+    let ops := opsP metaC tiles rootC leavesC hdr
+    (∀ r, PMTiles.openReader K (crash ops i k) ≠ .ok r) ∨ coreP (crash ops i k) = coreP (run ops).file := by
+  intro ops
+  have := pmtiles_crash_core 16384 (by omega)
+    ([Op.append metaC] ++ tiles.map Op.append ++
+      [.setPosition 127, .append rootC, .setPosition (16384 + metaC.length + tiles.flatten.length),
+       .append leavesC]) ?_ hdr hlen i k
+  · simp only [← opsP_shape] at this
+    rcases this with h | h
+    · exact Or.inl (pm_not_open_of_byte98 h)
+    · exact Or.inr h
+  · intro op hop
+    simp only [List.mem_append, List.mem_cons, List.mem_map, List.mem_nil_iff, or_false] at hop
+    rcases hop with (rfl | ⟨b, _, rfl⟩) | rfl | rfl | rfl | rfl <;> simp [SafeOp]
+    omega
+
 end VtProps.C12
+
